@@ -43,7 +43,7 @@ ACCESSORS = ["convert", "convert_array", "manager", "manager_nm", "hamiltonian",
              "molecule_set", "mode_ctor", "mode_set", "coupling", "coupling_matrix", "corfce_reorg", "specdens_reorg",
              "agg_hamiltonian", "rwa_skeleton", "freqaxis_to_timeaxis", "length", "transition_width",
              "diabatic_coupling", "adiabatic_coupling", "cutoff_coupling", "state_energy", "abs_rwa", "cfm_reorg",
-             "hierarchy_lam"]
+             "hierarchy_lam", "ham_diagonalize"]
 
 CALLS = ["build1", "build2", "build_modes", "rebuild", "diagonalize", "build_raises", "mol_hamiltonian", "mol_dipole",
          "mol_sbi", "rt_stR", "rt_stR_td", "rt_stF", "rt_cRF", "rt_unknown_raises", "redfield_rates", "foerster_rates",
@@ -326,6 +326,17 @@ def _check_matrix(case, ctx):
             with qr.energy_units(u2):
                 got = cfm.get_reorganization_energy(0, 0)
             cmp("conversion", got, orc.convert(lam, u1, u2))
+        elif acc == "ham_diagonalize":
+            M = numpy.array([[0.0, 0.0, 0.0], [0.0, v, float(case["v2"])], [0.0, float(case["v2"]), v + 5.0]])
+            with qr.energy_units(u1):
+                H = qr.Hamiltonian(data=M.copy())
+            Mi = orc.to_internal(M, u1)
+            with qr.energy_units(u2):
+                H.diagonalize()
+            cmp("stored-value", numpy.sort(numpy.diag(H._data)), numpy.sort(numpy.linalg.eigvalsh(Mi)))
+            with qr.energy_units(u1):
+                H.undiagonalize()
+            cmp("stored-value", H._data, Mi, what="after undiagonalize")
         elif acc == "hierarchy_lam":
             # a hierarchy may be set up while any energy units are current: what it stores is in internal units
             from quantarhei.qm.liouvillespace.heom import KTHierarchy
